@@ -61,6 +61,39 @@ def allLists (alpha : List Int) : Nat → List (List Int)
   | n + 1 => let shorter := allLists alpha n
     shorter ++ (shorter.filter (·.length == n)).flatMap fun l => alpha.map fun a => a :: l
 
+/-- all lists of values from `alpha` of length ≤ n -/
+def allValLists (alpha : List Py.Val) : Nat → List (List Py.Val)
+  | 0 => [[]]
+  | n + 1 => let shorter := allValLists alpha n
+    shorter ++ (shorter.filter (·.length == n)).flatMap fun l => alpha.map fun a => a :: l
+
+/-- argument generator: {"lists": [alphabet...], "maxlen": n} | {"choices": [v...]} | {"const": v}
+| {"sorted_unique_lists": [alphabet...], "maxlen": n} -/
+def genArg (j : Json) : R (List Py.Val) := do
+  match j.getObjVal? "const" with
+  | .ok v => pure [← toVal v]
+  | _ =>
+  match j.getObjVal? "choices" with
+  | .ok (.arr a) => a.toList.mapM toVal
+  | _ =>
+  match j.getObjVal? "lists", j.getObjValAs? Nat "maxlen" with
+  | .ok (.arr a), .ok n => do
+    let alpha ← a.toList.mapM toVal
+    pure ((allValLists alpha n).map Py.Val.list)
+  | _, _ =>
+  match j.getObjVal? "sorted_unique_lists", j.getObjValAs? Nat "maxlen" with
+  | .ok (.arr a), .ok n => do
+    let alpha ← a.toList.mapM toVal
+    -- sublists of the (increasing) alphabet, up to length n
+    let subs := alpha.foldr (fun x acc => acc ++ acc.map (x :: ·)) [[]]
+    pure ((subs.filter (·.length ≤ n)).map Py.Val.list)
+  | _, _ => throw "bad argument generator"
+
+def cartesian : List (List Py.Val) → List (List Py.Val)
+  | [] => [[]]
+  | xs :: rest => let tails := cartesian rest
+    xs.flatMap fun x => tails.map fun t => x :: t
+
 def handle (op : String) (j : Json) : Option (R Json) :=
   match op with
   | "twin.info" => some do
@@ -79,6 +112,35 @@ def handle (op : String) (j : Json) : Option (R Json) :=
       let finals := params.filterMap fun p => (env.find? (·.1 == p)).map fun kv => Json.arr #[Json.str p, ofVal kv.2]
       pure <| Json.mkObj [("ok", ofVal r), ("params", Json.arr finals.toArray)]
     | .error e => pure <| Json.mkObj [("err", Json.str (toString e))]
+  | "twin.scope" => some do
+    -- run a regenerated kernel over an exhaustive small scope under Python semantics with checked
+    -- accesses: counts results and errors (IndexError = oob, UnboundLocalError = unbound)
+    let fn ← getStr j "fn"
+    let gens ← j.getObjValAs? (Array Json) "args"
+    let P ← withGlobals j
+    let argLists ← gens.toList.mapM genArg
+    let mut n := 0
+    let mut oks := 0
+    let mut oob : List Json := []
+    let mut other : List Json := []
+    let mut nOob := 0
+    let mut nOther := 0
+    for args in cartesian argLists do
+      n := n + 1
+      match Py.callFn P fn args with
+      | .ok _ => oks := oks + 1
+      | .error (.oob nm i l) =>
+        nOob := nOob + 1
+        if oob.length < 3 then oob := oob ++ [Json.mkObj [("args", Json.arr (args.map ofVal).toArray), ("err", Json.str s!"oob:{nm}[{i}]/{l}")]]
+      | .error (.unbound v) =>
+        nOob := nOob + 1
+        if oob.length < 3 then oob := oob ++ [Json.mkObj [("args", Json.arr (args.map ofVal).toArray), ("err", Json.str s!"unbound:{v}")]]
+      | .error e =>
+        nOther := nOther + 1
+        if other.length < 3 then other := other ++ [Json.mkObj [("args", Json.arr (args.map ofVal).toArray), ("err", Json.str (toString e))]]
+    pure <| Json.mkObj [("cases", toJson n), ("ok", toJson oks), ("memory_errors", toJson nOob),
+      ("other_errors", toJson nOther), ("memory_error_samples", Json.arr oob.toArray),
+      ("other_error_samples", Json.arr other.toArray)]
   | "twin.bpe_exhaustive" => some do
     -- regenerated contract_pair vs hand model, every array over {1,2,3} up to length n, pairs over {1,2}
     let n ← getNat j "n"
